@@ -5,8 +5,8 @@
    strings involved; the same inputs are in corpus/C18 and are replayed on the implementation on every run,
    where the harness tabulates the real engine. *)
 From Coq Require Import ZArith.
-From TL Require Import Lib.Base Lib.GenTypes Model.PlacementTypes Gen.PlacementGen Model.Placement Model.PlacementRun
-     Actual.PlacementActual.
+From TL Require Import Lib.Base Lib.GenTypes Model.PlacementTypes Gen.PlacementGen Model.Placement Model.PlacementSource
+     Model.PlacementRun Actual.PlacementActual.
 
 Definition all_valid (p : string) : bool := true.
 Definition absf (p : string) : fileq := {| f_cwd := ""; f_rest := p; f_relative := false |}.
@@ -93,3 +93,30 @@ Theorem C18_trailing_slash_key_is_not_a_bare_prefix :
   /\ spec all_valid (tbl_matches []) w6_cfg (absf "lib/x.py")
      = SReports [("lib/x.py", 1, 0, "File 'lib/x.py' does not match allowed patterns for lib/")].
 Proof. vm_compute. repeat split; reflexivity. Qed.
+
+(* `--rules '{"deny": ["test_"]}'`, the inline form documented in docs/configuration.md and the CLI help, has no
+   effect: src/test_a.py is not reported *)
+Definition w7_src : source := {| s_file := None; s_rules := Some (RToplevel {| r_allow := None; r_deny := Some [DStr "test_"] |}) |}.
+Definition w7_mt := [("test_", "src/test_a.py", true)].
+Theorem C18_rules_toplevel_ignored_refuted :
+  forget (run_src all_valid (tbl_matches w7_mt) placement_actual placement_source_actual w7_src (absf "src/test_a.py"))
+    <> spec_src all_valid (tbl_matches w7_mt) w7_src (absf "src/test_a.py")
+  /\ forget (run_src all_valid (tbl_matches w7_mt) placement_actual (swith_flag 0 placement_source_actual) w7_src (absf "src/test_a.py"))
+    = spec_src all_valid (tbl_matches w7_mt) w7_src (absf "src/test_a.py").
+Proof. split; vm_compute; [discriminate|reflexivity]. Qed.
+
+(* .thailint.yaml has a file-placement section; `--rules '{"global_deny": ["\.tmp$"]}'` is shadowed by it:
+   notes.tmp is not reported, and src/x.txt is still judged by the file's rule *)
+Definition w8_src : source := {|
+  s_file := Some (FWrapped "file-placement" {| c_dirs := Some [("src", {| r_allow := Some [AStr ".*\.py$"]; r_deny := None |})];
+                                               c_gdeny := None; c_gpat := None |});
+  s_rules := Some (RUnwrapped {| c_dirs := None; c_gdeny := Some [DStr "\.tmp$"]; c_gpat := None |}) |}.
+Definition w8_mt := [("\.tmp$", "notes.tmp", true); ("\.tmp$", "src/x.txt", false); (".*\.py$", "src/x.txt", false); (".*\.py$", "notes.tmp", false)].
+Theorem C18_rules_do_not_override_file_refuted :
+  forget (run_src all_valid (tbl_matches w8_mt) placement_actual placement_source_actual w8_src (absf "notes.tmp"))
+    <> spec_src all_valid (tbl_matches w8_mt) w8_src (absf "notes.tmp")
+  /\ forget (run_src all_valid (tbl_matches w8_mt) placement_actual placement_source_actual w8_src (absf "src/x.txt"))
+    <> spec_src all_valid (tbl_matches w8_mt) w8_src (absf "src/x.txt")
+  /\ forget (run_src all_valid (tbl_matches w8_mt) placement_actual (swith_flag 1 placement_source_actual) w8_src (absf "notes.tmp"))
+    = spec_src all_valid (tbl_matches w8_mt) w8_src (absf "notes.tmp").
+Proof. repeat split; vm_compute; try discriminate; reflexivity. Qed.
